@@ -35,11 +35,13 @@ import (
 	peer_mgr "github.com/meshplus/bitxhub-core/peer-mgr"
 	"github.com/meshplus/bitxhub-kit/types"
 	"github.com/meshplus/bitxhub-model/pb"
+	"github.com/meshplus/bitxhub/internal/model/events"
 	"github.com/meshplus/bitxhub/pkg/order/etcdraft"
 	raftproto "github.com/meshplus/bitxhub/pkg/order/etcdraft/proto"
 	"github.com/meshplus/bitxhub/pkg/order/solo"
 	"github.com/meshplus/bitxhub/pkg/order/syncer"
 	"github.com/meshplus/bitxhub/verifharness/hx"
+	ethledger "github.com/meshplus/eth-kit/ledger"
 	"github.com/sirupsen/logrus"
 )
 
@@ -69,6 +71,16 @@ type Step struct {
 	Bai  [][2]uint64 `json:"bai,omitempty"`  // blockAppliedIndex
 	R    []uint64    `json:"r,omitempty"`    // op-specific result (resolved lo/hi of a ready; error code; pool flags)
 	Ent  *Block      `json:"ent,omitempty"`  // the entry appended to the log by this op (kind in R[0])
+	Reps []Report    `json:"reps,omitempty"` // glue: ReportState calls that reached the node during this op, in order
+	Dur  uint64      `json:"dur,omitempty"`  // glue: durable height of the ledger after the op
+}
+
+// Report: one ReportState(h) forwarded from the executor's ExecutedEvent, with the node state after it
+type Report struct {
+	H   uint64      `json:"h"`
+	St  []uint64    `json:"st"`
+	Bai [][2]uint64 `json:"bai"`
+	Dur uint64      `json:"dur"` // durable ledger height at the moment the report was handed to the node
 }
 
 type Trace struct {
@@ -174,6 +186,241 @@ func (stubPM) OtherPeers() map[uint64]*peer.AddrInfo         { return map[uint64
 func (stubPM) Broadcast(*pb.Message) error                   { return nil }
 func (stubPM) Disconnect(map[uint64]*pb.VpInfo)              {}
 func (stubPM) OrderPeers() map[uint64]*pb.VpInfo             { return map[uint64]*pb.VpInfo{} }
+
+// ---------------------------------------------------------------------------------- glue leg
+//
+// kind "glue": the raft node and the REAL block executor (hx.Chain: ledger.New on leveldb + blockfile,
+// executor.New) wired the way internal/app/feedhub.go wires them: every CommitEvent read from
+// Order.Commit() goes to BlockExecutor.ExecuteBlock, every ExecutedEvent becomes `go Order.ReportState`.
+// The chain ledger's PersistExecutionResult is gated: the history decides when the block being written
+// becomes durable ("persist") and where the process dies; forwarding of reports can be held back to
+// deliver them late and out of order (each report is its own goroutine in feedhub).
+
+type gatedChainLedger struct {
+	ethledger.ChainLedger
+	g *glueState
+}
+
+func (l *gatedChainLedger) PersistExecutionResult(b *pb.Block, rs []*pb.Receipt, m *pb.InterchainMeta) error {
+	g := l.g
+	g.mu.Lock()
+	inc := g.inc
+	g.writing = b.BlockHeader.Number
+	g.mu.Unlock()
+	g.writingC <- b.BlockHeader.Number
+	for {
+		tok := <-g.releaseC
+		if tok != inc {
+			// a token for another incarnation: this process is dead, the write never completes
+			if tok > inc {
+				g.releaseC <- tok
+				select {}
+			}
+			continue
+		}
+		break
+	}
+	err := l.ChainLedger.PersistExecutionResult(b, rs, m)
+	g.mu.Lock()
+	g.writing = 0
+	g.mu.Unlock()
+	return err
+}
+
+type glueState struct {
+	mu       sync.Mutex
+	ch       *hx.Chain
+	inc      int // incarnation: bumped by a crash, everything of older incarnations is dead
+	writing  uint64
+	writingC chan uint64
+	releaseC chan int
+	handed   int // commit events given to the executor in this incarnation
+	done     int // blocks durable in this incarnation
+	evbuf    []Block
+	reps     []Report
+	hold     int
+	held     []events.ExecutedEvent
+	stopC    chan struct{}
+}
+
+func (r *raftRun) glueWire() {
+	g := r.glue
+	g.mu.Lock()
+	g.inc++
+	inc := g.inc
+	g.handed, g.done, g.writing = 0, 0, 0
+	g.held = nil
+	g.stopC = make(chan struct{})
+	stop := g.stopC
+	g.mu.Unlock()
+	g.ch.Ledger.ChainLedger = &gatedChainLedger{ChainLedger: g.ch.Ledger.ChainLedger, g: g}
+	blockCh := make(chan events.ExecutedEvent)
+	sub := g.ch.Exec.SubscribeBlockEvent(blockCh)
+	node, exec := r.node, g.ch.Exec
+	go func() { // BitXHub.start(): Order.Commit() -> BlockExecutor.ExecuteBlock
+		for {
+			select {
+			case ev := <-node.Commit():
+				if ev == nil {
+					continue
+				}
+				g.mu.Lock()
+				if g.inc != inc {
+					g.mu.Unlock()
+					return
+				}
+				g.evbuf = append(g.evbuf, toBlock(ev.Block.BlockHeader.Number, ev.Block.Transactions))
+				g.handed++
+				g.mu.Unlock()
+				exec.ExecuteBlock(ev)
+			case <-stop:
+				return
+			}
+		}
+	}()
+	go func() { // BitXHub.listenEvent(): ExecutedEvent -> go Order.ReportState
+		defer sub.Unsubscribe()
+		for {
+			select {
+			case ev := <-blockCh:
+				g.mu.Lock()
+				if g.inc != inc {
+					g.mu.Unlock()
+					return
+				}
+				if g.hold > 0 {
+					g.hold--
+					g.held = append(g.held, ev)
+					g.mu.Unlock()
+					continue
+				}
+				g.mu.Unlock()
+				go r.glueReport(inc, ev)
+			case <-stop:
+				return
+			}
+		}
+	}()
+}
+
+func (r *raftRun) glueReport(inc int, ev events.ExecutedEvent) {
+	g := r.glue
+	g.mu.Lock()
+	defer g.mu.Unlock()
+	if g.inc != inc {
+		return // the process that produced this event is dead
+	}
+	dur := g.ch.Ledger.GetChainMeta().Height
+	r.node.ReportState(ev.Block.BlockHeader.Number, ev.Block.BlockHash, ev.TxHashList)
+	r.sync()
+	st, bai := r.state()
+	g.reps = append(g.reps, Report{H: ev.Block.BlockHeader.Number, St: st, Bai: bai, Dur: dur})
+}
+
+// glueSettle: wait until the executor is either waiting at the gate or has nothing to do, then give
+// reports that are already on their way a moment to arrive
+func (r *raftRun) glueSettle() {
+	g := r.glue
+	for i := 0; i < 4000; i++ {
+		g.mu.Lock()
+		idle := g.writing != 0 || g.done == g.handed
+		pendingC := len(r.node.Commit())
+		g.mu.Unlock()
+		if idle && pendingC == 0 {
+			break
+		}
+		time.Sleep(500 * time.Microsecond)
+	}
+	// drain the "writing" notifications (informational)
+	for {
+		select {
+		case <-g.writingC:
+			continue
+		default:
+		}
+		break
+	}
+	time.Sleep(25 * time.Millisecond)
+}
+
+func (r *raftRun) glueStep(op []interface{}) (Step, bool, error) {
+	g := r.glue
+	name, _ := op[0].(string)
+	st := Step{}
+	switch name {
+	case "persist": // the block the ledger is writing becomes durable
+		g.mu.Lock()
+		w, inc := g.writing, g.inc
+		g.mu.Unlock()
+		if w == 0 {
+			st.R = []uint64{9}
+			return st, true, nil
+		}
+		g.releaseC <- inc
+		for i := 0; i < 4000; i++ {
+			if g.ch.Ledger.GetChainMeta().Height >= w {
+				break
+			}
+			time.Sleep(500 * time.Microsecond)
+		}
+		g.mu.Lock()
+		g.done++
+		g.mu.Unlock()
+		r.chain = g.ch.Ledger.GetChainMeta().Height
+		// the executor announces the block after the write: give that report the time to arrive
+		for i := 0; i < 200; i++ {
+			g.mu.Lock()
+			seen := false
+			for _, rp := range g.reps {
+				if rp.H == w {
+					seen = true
+				}
+			}
+			nheld := len(g.held)
+			g.mu.Unlock()
+			if seen || nheld > 0 {
+				break
+			}
+			time.Sleep(500 * time.Microsecond)
+		}
+		st.R = []uint64{1, w}
+		return st, true, nil
+	case "hold": // ["hold", k]  the next k reports are not forwarded yet
+		g.mu.Lock()
+		g.hold += int(num(op[1]))
+		g.mu.Unlock()
+		st.R = []uint64{0}
+		return st, true, nil
+	case "release": // forward the held reports, newest first (each report is its own goroutine: any order)
+		g.mu.Lock()
+		held, inc := g.held, g.inc
+		g.held = nil
+		g.hold = 0
+		g.mu.Unlock()
+		for i := len(held) - 1; i >= 0; i-- {
+			r.glueReport(inc, held[i])
+		}
+		st.R = []uint64{uint64(len(held))}
+		return st, true, nil
+	case "exec", "report", "tx", "entp", "dropp", "snapin":
+		return st, true, fmt.Errorf("op %q is not part of the glue leg", name)
+	}
+	return st, false, nil
+}
+
+func (r *raftRun) glueCrash() error {
+	g := r.glue
+	g.mu.Lock()
+	g.inc++ // everything of the old incarnation is dead from here on: no report, no write completes
+	close(g.stopC)
+	g.mu.Unlock()
+	r.shutdown()
+	if err := g.ch.Restart(); err != nil {
+		return fmt.Errorf("ledger restart: %w", err)
+	}
+	r.chain = g.ch.Ledger.GetChainMeta().Height
+	return nil
+}
 
 // netPM: one other peer (id 2) that serves the canonical chain of the run's log on GET_BLOCKS
 type netPM struct {
@@ -295,6 +542,7 @@ type raftRun struct {
 	blocks     map[uint64]Block
 	pending    []Block // proposals handed to raft and neither appended nor dropped
 	dropHeight uint64  // the peer leaves this height out of one answer
+	glue       *glueState
 }
 
 func writeOrderToml(dir string, h History) error {
@@ -360,7 +608,12 @@ func (r *raftRun) open() error {
 		order.WithStoragePath(filepath.Join(r.dir, "storage", "order")),
 		order.WithLogger(quiet()),
 		order.WithApplied(chain),
-		order.WithGetChainMetaFunc(func() *pb.ChainMeta { return &pb.ChainMeta{Height: r.chain, BlockHash: &types.Hash{}} }),
+		order.WithGetChainMetaFunc(func() *pb.ChainMeta {
+			if r.glue != nil {
+				return r.glue.ch.Ledger.GetChainMeta()
+			}
+			return &pb.ChainMeta{Height: r.chain, BlockHash: &types.Hash{}}
+		}),
 		order.WithGetAccountNonceFunc(func(*types.Address) uint64 { return 0 }),
 	)
 	if err != nil {
@@ -375,6 +628,9 @@ func (r *raftRun) open() error {
 		r.fake = newFake()
 		r.node.VerifStartWith(r.fake, 3600*time.Second)
 	}
+	if r.glue != nil {
+		r.glueWire()
+	}
 	return nil
 }
 
@@ -384,6 +640,17 @@ func (r *raftRun) sync() {
 }
 
 func (r *raftRun) takeEvents() []Block {
+	if r.glue != nil {
+		g := r.glue
+		g.mu.Lock()
+		ev := g.evbuf
+		g.evbuf = nil
+		g.mu.Unlock()
+		if ev == nil {
+			ev = []Block{}
+		}
+		return ev
+	}
 	// the loop pushes commit events before the sync point of every op, so they are all in the
 	// channel by now (capacity 1024); read them without waiting
 	ev := []Block{}
@@ -434,7 +701,7 @@ func (r *raftRun) shutdown() {
 	if r.fake != nil {
 		select {
 		case <-r.fake.stopc:
-		case <-time.After(3 * time.Second):
+		case <-time.After(1 * time.Second):
 		}
 	} else {
 		time.Sleep(30 * time.Millisecond)
@@ -455,6 +722,15 @@ func (r *raftRun) appendEntry(kind uint64, b Block) {
 func (r *raftRun) step(op []interface{}) (Step, error) {
 	name, _ := op[0].(string)
 	st := Step{}
+	if r.glue != nil {
+		gs, handled, err := r.glueStep(op)
+		if err != nil {
+			return gs, err
+		}
+		if handled {
+			return r.glueFinish(gs), nil
+		}
+	}
 	switch name {
 	case "ent": // ["ent", kind, h, [txs]]  append a scripted entry to the shared log
 		kind := num(op[1])
@@ -555,7 +831,7 @@ func (r *raftRun) step(op []interface{}) (Step, error) {
 		}
 		select {
 		case <-r.fake.advc:
-		case <-time.After(20 * time.Second):
+		case <-time.After(4 * time.Second):
 			return st, fmt.Errorf("no advance after snapshot")
 		}
 		r.sync()
@@ -586,7 +862,13 @@ func (r *raftRun) step(op []interface{}) (Step, error) {
 		r.node.ReportState(h, &types.Hash{}, hashes)
 		r.sync()
 	case "crash":
-		r.shutdown()
+		if r.glue != nil {
+			if err := r.glueCrash(); err != nil {
+				return st, err
+			}
+		} else {
+			r.shutdown()
+		}
 		if err := r.open(); err != nil {
 			return st, err
 		}
@@ -626,10 +908,30 @@ func (r *raftRun) step(op []interface{}) (Step, error) {
 	default:
 		return st, fmt.Errorf("unknown op %q", name)
 	}
+	if r.glue != nil {
+		return r.glueFinish(st), nil
+	}
 	st.Prop = r.takeProps()
 	st.Ev = r.takeEvents()
 	st.St, st.Bai = r.state()
 	return st, nil
+}
+
+// glueFinish: quiesce, then collect what the op (and the executor reacting to it) did
+func (r *raftRun) glueFinish(st Step) Step {
+	r.glueSettle()
+	g := r.glue
+	g.mu.Lock()
+	st.Reps = g.reps
+	g.reps = nil
+	g.mu.Unlock()
+	st.Prop = r.takeProps()
+	st.Ev = r.takeEvents()
+	g.mu.Lock() // no report may be in flight while the state is read
+	st.St, st.Bai = r.state()
+	st.Dur = g.ch.Ledger.GetChainMeta().Height
+	g.mu.Unlock()
+	return st
 }
 
 // raftreal: wait until the real raft instance is quiet (applied == ram last)
@@ -668,6 +970,17 @@ func runRaft(h History, real bool) Trace {
 	}
 	etcdraft.VerifSetRestart(false)
 	r := &raftRun{h: h, dir: dir, real: real, chain: h.Init, blocks: map[uint64]Block{}}
+	if h.Kind == "glue" {
+		ch, err := hx.NewChain(hx.ChainOpts{Quiet: true})
+		if err != nil {
+			tr.Err = "chain: " + err.Error()
+			return tr
+		}
+		defer ch.Close()
+		r.glue = &glueState{ch: ch, writingC: make(chan uint64, 4096), releaseC: make(chan int, 16)}
+		r.chain = ch.Height()
+		r.h.Init = r.chain
+	}
 	if err := r.open(); err != nil {
 		tr.Err = "open: " + err.Error()
 		return tr
@@ -678,6 +991,9 @@ func runRaft(h History, real bool) Trace {
 	// step 0: the state right after construction
 	s0 := Step{Ev: r.takeEvents()}
 	s0.St, s0.Bai = r.state()
+	if r.glue != nil {
+		s0.Dur = r.chain
+	}
 	if real {
 		s0.R = r.realLog()
 	}
@@ -693,6 +1009,12 @@ func runRaft(h History, real bool) Trace {
 			st.R = append(st.R, r.realLog()...)
 		}
 		tr.Steps = append(tr.Steps, st)
+	}
+	if r.glue != nil {
+		r.glue.mu.Lock()
+		r.glue.inc++
+		close(r.glue.stopC)
+		r.glue.mu.Unlock()
 	}
 	r.shutdown()
 	return tr
@@ -1053,7 +1375,7 @@ func runOne(line []byte) (interface{}, error) {
 		return runSync(line), nil
 	}
 	switch h.Kind {
-	case "raft":
+	case "raft", "glue":
 		return runRaft(h, false), nil
 	case "raftreal":
 		return runRaft(h, true), nil
